@@ -4,14 +4,20 @@ from session_common import *
 ID = 'C01'
 COQ_TARGETS = ['Props/Properties_C01.vo', 'Props/Properties_C01t.vo']
 PROPS_FILES = ['Props/Properties_C01.v', 'Props/Properties_C01t.v']
-THEOREMS = ['C01_remote_rcpt_needs_relay', 'C01_submission_needs_entitlement', 'C01_auth_only_from_backend', 'C01_envelope_is_accepted_only',
+THEOREMS = ['C01_remote_rcpt_needs_relay', 'C01_submission_needs_entitlement', 'C01_three_entitlements', 'C01_submission_three_entitlements',
+            'C01_cert_note_only_from_tls_verify', 'C01_cert_note_is_entitling_certificate', 'C01_is_authenticated_refines',
+            'C01_auth_only_from_backend', 'C01_envelope_is_accepted_only',
             'C01t_verify_positive_only_if', 'C01t_verify_complete', 'C01t_embedded_nul_never_matches', 'C01t_fails_closed',
             'C01t_tlsclient_set_exactly_then', 'C01t_checked_once', 'C01t_no_retry', 'C01t_check_at_most_once',
             'C01t_error_never_entitles', 'C01t_relayclient_only_if', 'C01t_is_authenticated_positive_only_if',
             'C01t_connection', 'C01t_checker_sound']
 TLSVERIFY = dict(name='tlsverify', c_sources=['tlsverify_h.c'], extract='Extract/Extract_tlsverify.v', driver='tlsverify_driver.ml',
                  glue=('glue.ml', 'glue_z.ml'), accepts=lambda c: c.startswith('7c '), shrink_from=2)
-ENGINES = [ENGINE, TLSVERIFY]
+# the whole-program TLS engine of C17 (harness/tlssession/runner.py: the real Qsmtpd, python ssl client, TLS 1.3): the certificate
+# stage of is_authenticated() in the real binary, as far as the OpenSSL of this image lets it run (see reports/session-certificate.md)
+TLSSESSION = dict(name='tlssession', runner='tlssession/runner.py', extract='Extract/Extract_tlssession.v', driver='tls_driver.ml',
+                  glue=('glue.ml', 'glue_z.ml'), accepts=lambda c: c.startswith('7e '))
+ENGINES = [ENGINE, TLSVERIFY, TLSSESSION]
 RULE = ('sessions aimed at the relay decision: relayclients / relayclients6 absent, listing the client, listing another network, with a size that is not a '
         'multiple of the record size, with an invalid prefix length, unreadable; IPv4-mapped and IPv6 clients; remote recipients before and after local ones, '
         'repeated after an error, across RSET and several transactions; AUTH PLAIN attempts (right and wrong password, malformed, unknown mechanism, backend crash, '
@@ -23,7 +29,10 @@ RULE = ('sessions aimed at the relay decision: relayclients / relayclients6 abse
         'net_writen failure); subject names aimed at the comparison: listed emailAddress or commonName, listed name + NUL + suffix, NUL first / last / inside at equal '
         'length, proper prefix, one octet more, other case, unlisted emailAddress in front of a listed commonName, empty emailAddress, two emailAddress entries, '
         'other attribute types, entries of tlsclients that are prefixes of each other; start states relayclient 0/1/2/3, ssl_verified 0/1; non-trivial there = '
-        'the certificate was looked at in a sequence of several calls, or a call was entitled by certificate')
+        'the certificate was looked at in a sequence of several calls, or a call was entitled by certificate. '
+        'Engine tlssession (the real Qsmtpd behind the TLS 1.3 client of C17): sessions that reach is_authenticated() inside TLS - after a clear-text phase that cached the relay decision or not, '
+        'after AUTH or not, on port 25 (RCPT TO) and 587 (MAIL FROM) - with control/tlsclients and control/clientca.pem present or absent, a client that offers post-handshake authentication '
+        'or not and has the listed certificate or none; non-trivial there = a relay decision was answered inside TLS')
 TRUSTED_BASE = TRUSTED_COMMON + [
     'engine tlsverify: hand-written model coq/Model/TlsVerify.v (tls_verify, tls_check_cert, tls_out, is_authenticated, is_authenticated_client), tied to the C by '
     'harness/tlsverify_h.c: qsmtpd/starttls.c and qsmtpd/commands.c #included unchanged in one translation unit, real libcrypto for the X509 name / ASN1 string '
@@ -37,14 +46,18 @@ TRUSTED_BASE = TRUSTED_COMMON + [
 ]
 ASSUMPTIONS = ASSUMPTIONS_COMMON + [
     'the relay list lookup itself (check_ipbl_file / ip4_matchnet) is property C16; here its outcome is an oracle, instantiated per configuration',
-    'engine session: TLS client certificates are not exercised there (no TLS in the whole-program harness); they are the subject of engine tlsverify',
+    'engine session: no TLS in that harness, so the certificate stage of is_authenticated() runs there only in its "no TLS session: 0 at once" form; engine '
+    'tlssession (the real binary behind a TLS 1.3 client) reaches tls_verify() with and without control/tlsclients / clientca.pem / post-handshake authentication, '
+    'but never with a positive result: with the OpenSSL 3.0 of this image tls_check_cert() looks for the certificate before the client\'s answer to the TLS 1.3 '
+    'post-handshake request can have arrived (and the TLS 1.2 renegotiation path breaks the connection), see reports/session-certificate.md; the accepting path is '
+    'run against the real functions by engine tlsverify only',
     'engine tlsverify: OpenSSL is an oracle - that X509_V_OK means "the chain verifies against clientca.pem (and the CRL)" is OpenSSL\'s business together with '
     'tls_init() (SSL_CTX_load_verify_locations(CLIENTCA), verify_callback accepting every chain so that only SSL_get_verify_result() decides); every ASN1 string '
     'OpenSSL hands out has a NUL octet behind its data (ASN1_STRING_set; the harness uses real ASN1 strings); net_writen() returns 0 or -errno, never a positive '
     'value (hypothesis netw_ok of the theorems, cases violating it are outside the precondition); errno is not negative (type N in the model); loadlistfd() '
-    'returns C strings (its own correctness is C16/C20); the session model does not contain this stage, so the composition "RCPT TO 2xx for a remote address '
-    'implies relay list or AUTH or certificate" is the conjunction of C01_remote_rcpt_needs_relay (stated for sessions without TLS) and the C01t theorems about '
-    'is_authenticated(), not one theorem',
+    'returns C strings (its own correctness is C16/C20); in the session model the outcome of the one tls_verify() evaluation per connection is the oracle '
+    'o_tlsverify, tied to the literal model by tv_agrees (hypothesis of C01_three_entitlements / C01_is_authenticated_refines: the oracle value is what '
+    'TlsVerify.tls_verify computes for some answers e of OpenSSL / the file system that respect netw_ok)',
 ]
 LEVEL_TEXT = ('Coq theorems for all oracles and all client byte streams: a recipient outside rcpthosts gets 2xx only if the relay-list lookup returned a match '
               '(> 0) or an AUTH succeeded earlier on the same connection (a NAuth note, emitted with the 235 reply, stands before it; neither RSET, HELO/EHLO, '
@@ -53,16 +66,20 @@ LEVEL_TEXT = ('Coq theorems for all oracles and all client byte streams: a recip
               'appears only where a backend is configured and the mechanism handler reported success for that name; every hand-off envelope consists of '
               'accepted recipients only. Tied to the binary by whole-program runs with all kinds of relay list for v4 and v6 clients and AUTH PLAIN attempts '
               'against a checkpassword stand-in. On the submission port (TCPLOCALPORT 587) MAIL FROM itself gets its 250 only from a client with that same entitlement (C01_submission_needs_entitlement): smtp_from calls the same is_authenticated(), with the same cache and the same fail-closed treatment of a broken list.')
+LEVEL_TEXT += (' The session model contains the certificate stage of is_authenticated() as the C has it (after the relay list, only while relayclient is not 1, tls_verify() guarded by '
+               'TLS / ssl_verified / is_authenticated_client(), relayclient = 1 and xmitstat.tlsclient on success, the error passed on, freedata() forgetting the name but not the decision); '
+               'C01_remote_rcpt_needs_relay and C01_submission_needs_entitlement carry the third disjunct (a certificate note earlier on the connection), C01_three_entitlements states it as cert_entitles.')
 LEVEL_TEXT += (' Third entitlement (engine tlsverify, theorems C01t_*): for all oracle values, start states and call sequences tls_verify() > 0 only if TLS is '
                'active, the check has not run on this connection, tlsclients gave a list, the CA file loaded, the session id context was set, the rehandshake '
                'succeeded, the verification result is X509_V_OK, a certificate is present and its emailAddress (only without one: commonName) equals an entry of '
                'tlsclients octet for octet (a name containing NUL never matches), and conversely (C01t_verify_complete); xmitstat.tlsclient is set exactly then; every '
                'failing step fails closed; the check runs at most once per connection and a first negative result is never retried; is_authenticated() sets '
                'relayclient to 1 only by relay list or entitling certificate and never together with an error result.')
-LEVEL_NOTE = ('Partial: the certificate stage is proved at unit level (tls_verify / is_authenticated with oracles) and is not part of the whole-session model, so '
-              'the session theorem and the certificate theorems are two layers; OpenSSL chain verification is an oracle; multi-line AUTH exchanges (LOGIN, PLAIN without initial '
+LEVEL_NOTE = ('One theorem for the three entitlements (C01_three_entitlements: relay list, or AUTH earlier, or inside TLS a certificate accepted earlier that satisfies cert_entitles), '
+              'obtained from the session simulation plus the bridge to the literal tls_verify model (C01_is_authenticated_refines: the session\'s is_authenticated IS TlsVerify.is_authenticated on '
+              'relayclient / tlsclient / ssl_verified). Partial: OpenSSL chain verification is an oracle; the accepting certificate path is tied to the C at unit level only (engine tlsverify); multi-line AUTH exchanges (LOGIN, PLAIN without initial '
               'response) end the modelled session (their logic is property C09); lookup internals are C16.')
-TECHNIQUE = ('Coq invariant proof over the session model (cached relay decision, authentication flag in step with the trace) as part of the simulation; whole-program differential run over relay-list kinds; '
+TECHNIQUE = ('Coq invariant proof over the session model (cached relay decision incl. the certificate stage, authentication and certificate flags in step with the trace) as part of the simulation; refinement proof session is_authenticated = literal is_authenticated; whole-program differential run over relay-list kinds; '
              'literal oracle model of tls_verify/tls_check_cert/is_authenticated with case-analysis proofs and induction over call sequences, unit differential run against the real functions with scripted OpenSSL')
 DESIGN_REF = 'DESIGN.md section 5, C01'
 
@@ -190,6 +207,10 @@ def _tv_has_nul(case):
 
 
 def nontrivial(case, c_out):
+    if case.startswith('7e '):
+        # the certificate stage was reached inside TLS: a remote recipient (or MAIL on 587) was answered there
+        toks = c_out.split()
+        return 'S' in toks and any(t in ('t551', 't454', 't550') for t in toks)
     if case.startswith('7c '):
         # the certificate was looked at (letter P) in a sequence of at least two calls, or a call succeeded by certificate
         return ('P' in c_out and len(c_out.split()) > 1) or 'PD' in c_out
@@ -197,7 +218,11 @@ def nontrivial(case, c_out):
 
 
 def distribution(results):
-    d = _session_distribution([r for r in results if not r['case'].startswith('7c ')])
+    d = _session_distribution([r for r in results if r['case'].startswith('5e ')])
+    te = [r for r in results if r['case'].startswith('7e ')]
+    d['tls_cert_cases'] = len(te)
+    d['tls_cert_cases_454_then_550'] = sum(1 for r in te if 't454 t550' in r['c'])
+    d['tls_cert_cases_refused_in_tls'] = sum(1 for r in te if 't551' in r['c'].split())
     tv = [r for r in results if r['case'].startswith('7c ')]
     d['tlsverify_cases'] = len(tv)
     calls = [t for r in tv for t in r['c'].split()]
@@ -211,9 +236,39 @@ def distribution(results):
     return d
 
 
+def tls_cert_case(rng):
+    """a session that reaches is_authenticated() inside TLS with control/tlsclients / control/clientca.pem present or not, a client that
+    offers post-handshake authentication or not and has the listed certificate or none; before the switch the relay decision may already
+    be cached (relayclient = 2), AUTH may entitle first (then tls_verify() is never asked), the port may be 587 (the stage runs in MAIL FROM)"""
+    def it(k, d=b''): return (k.encode() + d).hex()
+    cfg = ['cert=good', 'relay=' + rng.choice(['none', 'none', 'unlisted', 'listed', 'badsize']), 'ip=' + rng.choice(['v4', 'v4', 'v6']), 'databytes=0', 'qq=ok,ok,ok',
+           'tlsclients=' + rng.choice(['1', '1', '1', '0']), 'clientca=' + rng.choice(['1', '1', '1', '0']), 'pha=' + rng.choice(['1', '1', '0']),
+           'ccert=' + rng.choice(['listed', 'listed', 'none']), 'auth=' + rng.choice(['0', '0', '1']), 'port=' + rng.choice(['25', '25', '25', '587'])]
+    items = [it('S', b'EHLO c.example.net\r\n')]
+    if rng.random() < 0.4:
+        # in clear text first: the relay list is looked up and the answer cached; tls_verify() has no TLS session to ask
+        items += [it('S', session_gen.mail(rng, 'ok')), it('S', session_gen.rcpt(rng, 'remote'))]
+        if rng.random() < 0.5: items.append(it('S', b'RSET\r\n'))
+    items += [it('S', b'STARTTLS\r\n'), it('H'), it('S', b'EHLO c.example.net\r\n')]
+    if 'auth=1' in cfg and rng.random() < 0.5:
+        items.append(it('S', session_gen.auth_line(rng, rng.choice(['good', 'wrongpw']))))
+    for _ in range(rng.choice([1, 2])):
+        items.append(it('S', session_gen.mail(rng, rng.choice(['ok', 'ok', 'bounce']))))
+        for _ in range(rng.choice([1, 2, 3])):
+            items.append(it('S', session_gen.rcpt(rng, rng.choice(['remote', 'remote', 'ok', 'rbad']))))
+        if rng.random() < 0.6:
+            items += [it('S', b'DATA\r\n'), it('S', b'Subject: t\r\n\r\nbody\r\n.\r\n')]
+        else:
+            items.append(it('S', b'RSET\r\n'))
+    if rng.random() < 0.3: items.append(it('S', b'QUIT\r\n'))
+    return '7e ' + R.hx(';'.join(cfg)) + ' ' + ' '.join(items)
+
+
 def gen_cases(engine, rng, tier):
     if engine == 'tlsverify':
         return [tv_case(rng) for _ in range(4000 if tier == 'quick' else 150000)]
+    if engine == 'tlssession':
+        return [tls_cert_case(rng) for _ in range(150 if tier == 'quick' else 3000)]
     n = 300 if tier == 'quick' else 6000
     out = []
     for _ in range(n // 2):
